@@ -83,6 +83,14 @@ DUNDER_CMP = {ast.Gt: "__gt__", ast.GtE: "__ge__", ast.Lt: "__lt__", ast.LtE: "_
 DUNDER_BIN = {ast.Add: "__add__", ast.Sub: "__sub__", ast.Mult: "__mul__"}
 BIN = {ast.Add: operator.add, ast.Sub: operator.sub, ast.Mult: operator.mul, ast.BitOr: operator.or_, ast.BitAnd: operator.and_, ast.FloorDiv: operator.floordiv, ast.Mod: operator.mod, ast.Pow: operator.pow, ast.LShift: operator.lshift}
 
+
+def _chain(*its: Any) -> list:
+    return [x for it in its for x in it]
+
+
+_chain.from_iterable = lambda its: [x for it in its for x in it]  # type: ignore[attr-defined]
+_chain._sa_attrs = ("from_iterable",)  # type: ignore[attr-defined]
+
 SAFE_BUILTINS: dict[str, Callable] = {
     "len": len, "max": max, "min": min, "ord": ord, "chr": chr, "range": range, "any": any, "all": all, "sorted": sorted,
     "reversed": lambda x: list(reversed(x)), "abs": abs, "int": int, "set": set, "list": list, "tuple": tuple, "bool": bool, "str": str,
@@ -91,7 +99,7 @@ SAFE_BUILTINS: dict[str, Callable] = {
     "bisect_right": __import__("bisect").bisect_right, "bisect_left": __import__("bisect").bisect_left, "bisect": __import__("bisect").bisect, 
     "enumerate": lambda x, start=0: list(enumerate(x, start)), "zip": lambda *a, strict=False: list(zip(*a, strict=strict)), "sum": sum,
     "repeat": lambda x, n: [x] * n,  # itertools.repeat with a count
-    "chain": lambda *its: [x for it in its for x in it],  # itertools.chain
+    "chain": _chain,  # itertools.chain (and chain.from_iterable)
 }
 STR_METHODS = {"lower", "upper", "startswith", "endswith", "casefold", "isalpha", "swapcase", "isascii", "isdigit", "isalnum", "isupper", "islower", "strip", "lstrip", "rstrip", "split", "replace", "find", "rfind", "count", "index", "splitlines", "rsplit", "join", "encode", "isspace", "title", "zfill", "ljust", "rjust", "center", "partition", "rpartition", "expandtabs", "format"}
 LIST_METHODS = {"append", "extend", "pop", "sort", "clear", "insert", "index", "copy", "reverse", "count", "remove"}
@@ -149,6 +157,9 @@ class Ev:
 
     def to_str(self, v: Any) -> str:
         if isinstance(v, Obj):
+            own = v.__dict__.get("__str__")
+            if callable(own):  # a stand-in object of the checker (an oracle leaf) says what it prints as
+                return own()
             m = self.dunder(v, "__str__")
             if m is None:
                 raise Unsupported(f"{self.where}: str() of a model object without __str__: {v!r}")
@@ -202,6 +213,8 @@ class Ev:
             if n.id in self.env.get("__fnlocals__", ()):
                 # assigned somewhere in the enclosing function but not on this path
                 raise _ModelRaise(f"UnboundLocalError: {n.id}")
+            if getattr(SAFE_BUILTINS.get(n.id), "_sa_attrs", None):  # a library callable with attributes (chain.from_iterable)
+                return SAFE_BUILTINS[n.id]
             raise self.bad(n, "unbound name")
         if isinstance(n, ast.Attribute):
             base = self.ev(n.value)
@@ -549,6 +562,8 @@ class Ev:
                     raise _ModelRaise(type(err).__name__) from err
             if isinstance(recv, set) and f.attr in SET_METHODS:
                 return getattr(recv, f.attr)(*args)
+            if callable(recv) and f.attr in getattr(recv, "_sa_attrs", ()):  # chain.from_iterable
+                return getattr(recv, f.attr)(*[self.iterate(a) if isinstance(a, Obj) else a for a in args])
             raise self.bad(n, f"method {f.attr} on {type(recv).__name__}")
         raise self.bad(n)
 
